@@ -205,6 +205,15 @@ fn plant_cache_faults(r: &mut Rng, cache_root: &Path, repo_id: &str, st: &StoreS
             for f in std::fs::read_dir(d.path()).into_iter().flatten().flatten() {
                 if r.chance(1, 3) {
                     if let Ok(b) = std::fs::read(f.path()) {
+                        if r.chance(1, 3) {
+                            // a foreign, longer file under the pack's name: the size check that `check` applies to cached
+                            // packs (the read operations below start with it) has to throw it out
+                            let n = b.len() + 1 + r.usize_below(200);
+                            if std::fs::write(f.path(), r.bytes(n)).is_ok() {
+                                done.push("oversized foreign cached pack".to_string());
+                            }
+                            continue;
+                        }
                         let keep = *r.pick(&[0usize, 10, 16, b.len() / 2, b.len().saturating_sub(1)]);
                         if keep < b.len() && std::fs::write(f.path(), &b[..keep]).is_ok() {
                             done.push("truncated cached pack".to_string());
